@@ -147,8 +147,7 @@ macro_rules
       all_goals (try (simp at $hc:ident))
       all_goals (try subst $hc:ident)))
 
-/-! ### layer 0: simple unconditional facts -/
-
+/-! scratch -/
 structure Inv0 (s : St) : Prop where
   dr : ∀ g, s.det g ≤ 3
   wfj : ∀ g, s.det g = WFJ → finX (s.pc g) = true
@@ -163,6 +162,40 @@ structure Inv0 (s : St) : Prop where
   ff : ∀ g, (parkF (s.pc g) = true ∨ s.pc g = .fWoken) → s.first g = some g
   tcl : ∀ b g, takePh (s.pc b) g = true → (s.claimed g = true ∨ s.detX g = true)
   fc : ∀ g, holdsFAny (s.pc g) = true → s.claimed g = true
+
+structure Inv1 (s : St) : Prop where
+  mb : ∀ g, s.ji g ≠ 0 → parkedIn (s.pc (s.ji g)) (s.ji g) g = true ∧ s.holder (s.ji g) = none
+  hw : ∀ a op g v p, s.pc a = .wake op g v p → s.holder p = some a ∧ parkedIn (s.pc p) p g = true
+  hf : (∀ a p, s.pc a = .fGot p → s.holder p = some a ∧ s.pc p = .jParked a) ∧ (∀ a p v, s.pc a = .fGotRes p v → s.holder p = some a ∧ s.pc p = .jParked a) ∧ (∀ a p, s.pc a = .fGave p → s.holder p = some a ∧ s.pc p = .jParked a)
+  hh : ∀ p, s.holder p = none ∨ ∃ a, s.holder p = some a ∧ holds (s.pc a) p = true
+  st : ∀ g, stored (s.pc g) = true → s.retval g = some (s.res g)
+  t0 : ∀ a op g, s.pc a = .take0 op g → finX (s.pc g) = true
+  tv : ∀ a op g v, s.pc a = .take op g v → op ≠ .detach → s.retval g = some v
+  wv : ∀ a op g v p, s.pc a = .wake op g v p → op ≠ .detach → s.retval g = some v
+  gr : ∀ g p v, s.pc g = .fGotRes p v → s.retval g = some v
+  gv : ∀ g p, s.pc g = .fGave p → s.retval g = some (s.res p)
+  dj : ∀ g, (s.pc g = .fWoken ∨ s.pc g = .fMark ∨ s.pc g = .fDone) → (s.claimed g = true ∨ s.detX g = true)
+
+structure Inv2 (s : St) : Prop where
+  k3 : ∀ g a, untainted s g → claimPath (s.pc a) g = true → (s.det g ≠ WFJ ∨ s.finTook g = true)
+  k4 : ∀ g, untainted s g → s.succ g ≠ [] → (s.det g ≠ WFJ ∨ s.finTook g = true)
+  k5 : ∀ g p, untainted s g → joinerPark (s.pc p) g = true → (s.det g = WTJ ∨ (s.det g = WFJ ∧ s.finTook g = true))
+  uq : ∀ g a a', untainted s g → claimPath (s.pc a) g = true → claimPath (s.pc a') g = true → a = a'
+  sq : ∀ g a, untainted s g → s.succ g ≠ [] → claimPath (s.pc a) g = false
+  sl : ∀ g, untainted s g → (s.succ g).length ≤ 1
+  cv1 : ∀ g p, untainted s g → s.pc p = .jWoken g → s.retval g = some (s.res p)
+  cv2 : ∀ g p v, untainted s g → s.pc p = .jGotRes g v → s.retval g = some v
+  cv3 : ∀ g a op v, untainted s g → s.pc a = .retn op g true v → op ≠ .detach → s.retval g = some v
+  sv : ∀ g v, untainted s g → v ∈ s.succ g → s.retval g = some v
+  c1 : ∀ g b, untainted s g → takePh (s.pc b) g = true → parkF (s.pc g) = true
+  c4 : ∀ g, untainted s g → s.det g = WFJ → (s.finTook g = true ∨ parkF (s.pc g) = true)
+  c9 : ∀ g, untainted s g → s.det g = WTJ → finX (s.pc g) = false → (s.first g ≠ none ∧ ∀ p, s.first g = some p → joinerPark (s.pc p) g = true)
+  ii : ∀ g, untainted s g → s.pc g = .fTake → (s.first g ≠ none ∧ ∀ p, s.first g = some p → joinerPark (s.pc p) g = true)
+  iii : ∀ g p, untainted s g → joinerPark (s.pc p) g = true → finX (s.pc g) = true → delivering (s.pc g) p = true
+  iv : ∀ g, untainted s g → parkF (s.pc g) = true → s.det g ≠ WFJ → (s.taker g ≠ none ∧ ∀ b, s.taker g = some b → takePh (s.pc b) g = true)
+  t4 : ∀ g, untainted s g → s.detX g = true → s.det g = DET
+  dx1 : ∀ g, untainted s g → s.detX g = true → s.succ g = []
+  dx2 : ∀ g a, untainted s g → s.detX g = true → claimPath (s.pc a) g = true → detTake (s.pc a) g = true
 
 variable {s s1 : St} {e : Ev}
 
@@ -205,24 +238,6 @@ theorem inv0_tcl (h0 : Inv0 s) (hc : stepCore s e = some s1) : ∀ b g, takePh (
 theorem inv0_fc (h0 : Inv0 s) (hc : stepCore s e = some s1) : ∀ g, holdsFAny (s1.pc g) = true → s1.claimed g = true := by
   sorry
 
-theorem inv0_core (h0 : Inv0 s) (hc : stepCore s e = some s1) : Inv0 s1 :=
-  ⟨inv0_dr h0 hc, inv0_wfj h0 hc, inv0_detx h0 hc, inv0_fret h0 hc, inv0_tl h0 hc, inv0_cpn h0 hc, inv0_scn h0 hc, inv0_fxn h0 hc, inv0_dst h0 hc, inv0_fj h0 hc, inv0_ff h0 hc, inv0_tcl h0 hc, inv0_fc h0 hc⟩
-
-/-! ### layer 1: mailbox discipline (holder uniqueness) and the values that travel -/
-
-structure Inv1 (s : St) : Prop where
-  mb : ∀ g, s.ji g ≠ 0 → parkedIn (s.pc (s.ji g)) (s.ji g) g = true ∧ s.holder (s.ji g) = none
-  hw : ∀ a op g v p, s.pc a = .wake op g v p → s.holder p = some a ∧ parkedIn (s.pc p) p g = true
-  hf : (∀ a p, s.pc a = .fGot p → s.holder p = some a ∧ s.pc p = .jParked a) ∧ (∀ a p v, s.pc a = .fGotRes p v → s.holder p = some a ∧ s.pc p = .jParked a) ∧ (∀ a p, s.pc a = .fGave p → s.holder p = some a ∧ s.pc p = .jParked a)
-  hh : ∀ p, s.holder p = none ∨ ∃ a, s.holder p = some a ∧ holds (s.pc a) p = true
-  st : ∀ g, stored (s.pc g) = true → s.retval g = some (s.res g)
-  t0 : ∀ a op g, s.pc a = .take0 op g → finX (s.pc g) = true
-  tv : ∀ a op g v, s.pc a = .take op g v → op ≠ .detach → s.retval g = some v
-  wv : ∀ a op g v p, s.pc a = .wake op g v p → op ≠ .detach → s.retval g = some v
-  gr : ∀ g p v, s.pc g = .fGotRes p v → s.retval g = some v
-  gv : ∀ g p, s.pc g = .fGave p → s.retval g = some (s.res p)
-  dj : ∀ g, (s.pc g = .fWoken ∨ s.pc g = .fMark ∨ s.pc g = .fDone) → (s.claimed g = true ∨ s.detX g = true)
-
 theorem inv1_mb (mb : ∀ g, s.ji g ≠ 0 → parkedIn (s.pc (s.ji g)) (s.ji g) g = true ∧ s.holder (s.ji g) = none) (hh : ∀ p, s.holder p = none ∨ ∃ a, s.holder p = some a ∧ holds (s.pc a) p = true) (hw : ∀ a op g v p, s.pc a = .wake op g v p → s.holder p = some a ∧ parkedIn (s.pc p) p g = true) (hf : (∀ a p, s.pc a = .fGot p → s.holder p = some a ∧ s.pc p = .jParked a) ∧ (∀ a p v, s.pc a = .fGotRes p v → s.holder p = some a ∧ s.pc p = .jParked a) ∧ (∀ a p, s.pc a = .fGave p → s.holder p = some a ∧ s.pc p = .jParked a)) (hc : stepCore s e = some s1) : ∀ g, s1.ji g ≠ 0 → parkedIn (s1.pc (s1.ji g)) (s1.ji g) g = true ∧ s1.holder (s1.ji g) = none := by
   sorry
 
@@ -255,32 +270,6 @@ theorem inv1_gv (gv : ∀ g p, s.pc g = .fGave p → s.retval g = some (s.res p)
 
 theorem inv1_dj (dj : ∀ g, (s.pc g = .fWoken ∨ s.pc g = .fMark ∨ s.pc g = .fDone) → (s.claimed g = true ∨ s.detX g = true)) (detx : ∀ g, s.det g = DET → s.detX g = true) (wfj : ∀ g, s.det g = WFJ → finX (s.pc g) = true) (tcl : ∀ b g, takePh (s.pc b) g = true → (s.claimed g = true ∨ s.detX g = true)) (fc : ∀ g, holdsFAny (s.pc g) = true → s.claimed g = true) (hw : ∀ a op g v p, s.pc a = .wake op g v p → s.holder p = some a ∧ parkedIn (s.pc p) p g = true) (dr : ∀ g, s.det g ≤ 3) (hc : stepCore s e = some s1) : ∀ g, (s1.pc g = .fWoken ∨ s1.pc g = .fMark ∨ s1.pc g = .fDone) → (s1.claimed g = true ∨ s1.detX g = true) := by
   sorry
-
-theorem inv1_core (h0 : Inv0 s) (h1 : Inv1 s) (hc : stepCore s e = some s1) : Inv1 s1 :=
-  ⟨inv1_mb h1.mb h1.hh h1.hw h1.hf hc, inv1_hw h1.hw h1.mb h1.hf h1.hh hc, inv1_hf h1.hf h1.mb h1.hw h1.hh hc, inv1_hh h1.hh h1.hw h1.hf h1.mb hc, inv1_st h1.st h0.fret h1.hf hc, inv1_t0 h1.t0 h0.wfj hc, inv1_tv h1.tv h1.st h1.t0 hc, inv1_wv h1.wv h1.tv hc, inv1_gr h1.gr h1.st hc, inv1_gv h1.gv h1.gr h1.hf hc, inv1_dj h1.dj h0.detx h0.wfj h0.tcl h0.fc h1.hw h0.dr hc⟩
-
-/-! ### layer 2: the protocol on targets without an opened window -/
-
-structure Inv2 (s : St) : Prop where
-  k3 : ∀ g a, untainted s g → claimPath (s.pc a) g = true → (s.det g ≠ WFJ ∨ s.finTook g = true)
-  k4 : ∀ g, untainted s g → s.succ g ≠ [] → (s.det g ≠ WFJ ∨ s.finTook g = true)
-  k5 : ∀ g p, untainted s g → joinerPark (s.pc p) g = true → (s.det g = WTJ ∨ (s.det g = WFJ ∧ s.finTook g = true))
-  uq : ∀ g a a', untainted s g → claimPath (s.pc a) g = true → claimPath (s.pc a') g = true → a = a'
-  sq : ∀ g a, untainted s g → s.succ g ≠ [] → claimPath (s.pc a) g = false
-  sl : ∀ g, untainted s g → (s.succ g).length ≤ 1
-  cv1 : ∀ g p, untainted s g → s.pc p = .jWoken g → s.retval g = some (s.res p)
-  cv2 : ∀ g p v, untainted s g → s.pc p = .jGotRes g v → s.retval g = some v
-  cv3 : ∀ g a op v, untainted s g → s.pc a = .retn op g true v → op ≠ .detach → s.retval g = some v
-  sv : ∀ g v, untainted s g → v ∈ s.succ g → s.retval g = some v
-  c1 : ∀ g b, untainted s g → takePh (s.pc b) g = true → parkF (s.pc g) = true
-  c4 : ∀ g, untainted s g → s.det g = WFJ → (s.finTook g = true ∨ parkF (s.pc g) = true)
-  c9 : ∀ g, untainted s g → s.det g = WTJ → finX (s.pc g) = false → (s.first g ≠ none ∧ ∀ p, s.first g = some p → joinerPark (s.pc p) g = true)
-  ii : ∀ g, untainted s g → s.pc g = .fTake → (s.first g ≠ none ∧ ∀ p, s.first g = some p → joinerPark (s.pc p) g = true)
-  iii : ∀ g p, untainted s g → joinerPark (s.pc p) g = true → finX (s.pc g) = true → delivering (s.pc g) p = true
-  iv : ∀ g, untainted s g → parkF (s.pc g) = true → s.det g ≠ WFJ → (s.taker g ≠ none ∧ ∀ b, s.taker g = some b → takePh (s.pc b) g = true)
-  t4 : ∀ g, untainted s g → s.detX g = true → s.det g = DET
-  dx1 : ∀ g, untainted s g → s.detX g = true → s.succ g = []
-  dx2 : ∀ g a, untainted s g → s.detX g = true → claimPath (s.pc a) g = true → detTake (s.pc a) g = true
 
 theorem inv2_k3 (k3 : ∀ g a, untainted s g → claimPath (s.pc a) g = true → (s.det g ≠ WFJ ∨ s.finTook g = true)) (cpn : ∀ a g, claimPath (s.pc a) g = true → s.det g ≠ NONE) (dr : ∀ g, s.det g ≤ 3) (wfj : ∀ g, s.det g = WFJ → finX (s.pc g) = true) (hc : stepCore s e = some s1) : ∀ g a, untainted s1 g → claimPath (s1.pc a) g = true → (s1.det g ≠ WFJ ∨ s1.finTook g = true) := by
   sorry
@@ -318,30 +307,38 @@ theorem inv2_c1 (c1 : ∀ g b, untainted s g → takePh (s.pc b) g = true → pa
 theorem inv2_c4 (c4 : ∀ g, untainted s g → s.det g = WFJ → (s.finTook g = true ∨ parkF (s.pc g) = true)) (k3 : ∀ g a, untainted s g → claimPath (s.pc a) g = true → (s.det g ≠ WFJ ∨ s.finTook g = true)) (hw : ∀ a op g v p, s.pc a = .wake op g v p → s.holder p = some a ∧ parkedIn (s.pc p) p g = true) (wfj : ∀ g, s.det g = WFJ → finX (s.pc g) = true) (dr : ∀ g, s.det g ≤ 3) (hc : stepCore s e = some s1) : ∀ g, untainted s1 g → s1.det g = WFJ → (s1.finTook g = true ∨ parkF (s1.pc g) = true) := by
   sorry
 
+set_option maxHeartbeats 4000000 in
 theorem inv2_c9 (c9 : ∀ g, untainted s g → s.det g = WTJ → finX (s.pc g) = false → (s.first g ≠ none ∧ ∀ p, s.first g = some p → joinerPark (s.pc p) g = true)) (fj : ∀ p g, joinerPath (s.pc p) g = true → s.first g = some p) (tl : ∀ a op g, s.pc a = .loaded op g → op ≠ .join → s.det g ≠ NONE) (wfj : ∀ g, s.det g = WFJ → finX (s.pc g) = true) (uq : ∀ g a a', untainted s g → claimPath (s.pc a) g = true → claimPath (s.pc a') g = true → a = a') (hw : ∀ a op g v p, s.pc a = .wake op g v p → s.holder p = some a ∧ parkedIn (s.pc p) p g = true) (hf : (∀ a p, s.pc a = .fGot p → s.holder p = some a ∧ s.pc p = .jParked a) ∧ (∀ a p v, s.pc a = .fGotRes p v → s.holder p = some a ∧ s.pc p = .jParked a) ∧ (∀ a p, s.pc a = .fGave p → s.holder p = some a ∧ s.pc p = .jParked a)) (cpn : ∀ a g, claimPath (s.pc a) g = true → s.det g ≠ NONE) (dr : ∀ g, s.det g ≤ 3) (hc : stepCore s e = some s1) : ∀ g, untainted s1 g → s1.det g = WTJ → finX (s1.pc g) = false → (s1.first g ≠ none ∧ ∀ p, s1.first g = some p → joinerPark (s1.pc p) g = true) := by
-  sorry
+  step_cases e with hc
+  all_goals (intros; (try simp only [upd_apply, WFJ, DET, NONE, WTJ, untainted] at *); first | grind | grind (splits := 25) | grind (splits := 80) | ((repeat' split) <;> grind (splits := 80)) | skip)
 
+set_option maxHeartbeats 4000000 in
 theorem inv2_ii (ii : ∀ g, untainted s g → s.pc g = .fTake → (s.first g ≠ none ∧ ∀ p, s.first g = some p → joinerPark (s.pc p) g = true)) (c9 : ∀ g, untainted s g → s.det g = WTJ → finX (s.pc g) = false → (s.first g ≠ none ∧ ∀ p, s.first g = some p → joinerPark (s.pc p) g = true)) (uq : ∀ g a a', untainted s g → claimPath (s.pc a) g = true → claimPath (s.pc a') g = true → a = a') (hw : ∀ a op g v p, s.pc a = .wake op g v p → s.holder p = some a ∧ parkedIn (s.pc p) p g = true) (hf : (∀ a p, s.pc a = .fGot p → s.holder p = some a ∧ s.pc p = .jParked a) ∧ (∀ a p v, s.pc a = .fGotRes p v → s.holder p = some a ∧ s.pc p = .jParked a) ∧ (∀ a p, s.pc a = .fGave p → s.holder p = some a ∧ s.pc p = .jParked a)) (hc : stepCore s e = some s1) : ∀ g, untainted s1 g → s1.pc g = .fTake → (s1.first g ≠ none ∧ ∀ p, s1.first g = some p → joinerPark (s1.pc p) g = true) := by
-  sorry
+  step_cases e with hc
+  all_goals (intros; (try simp only [upd_apply, WFJ, DET, NONE, WTJ, untainted] at *); first | grind | grind (splits := 25) | grind (splits := 80) | ((repeat' split) <;> grind (splits := 80)) | skip)
 
 theorem inv2_iii (iii : ∀ g p, untainted s g → joinerPark (s.pc p) g = true → finX (s.pc g) = true → delivering (s.pc g) p = true) (k5 : ∀ g p, untainted s g → joinerPark (s.pc p) g = true → (s.det g = WTJ ∨ (s.det g = WFJ ∧ s.finTook g = true))) (cpn : ∀ a g, claimPath (s.pc a) g = true → s.det g ≠ NONE) (fxn : ∀ g, finX (s.pc g) = true → s.det g ≠ NONE) (wfj : ∀ g, s.det g = WFJ → finX (s.pc g) = true) (mb : ∀ g, s.ji g ≠ 0 → parkedIn (s.pc (s.ji g)) (s.ji g) g = true ∧ s.holder (s.ji g) = none) (uq : ∀ g a a', untainted s g → claimPath (s.pc a) g = true → claimPath (s.pc a') g = true → a = a') (hf : (∀ a p, s.pc a = .fGot p → s.holder p = some a ∧ s.pc p = .jParked a) ∧ (∀ a p v, s.pc a = .fGotRes p v → s.holder p = some a ∧ s.pc p = .jParked a) ∧ (∀ a p, s.pc a = .fGave p → s.holder p = some a ∧ s.pc p = .jParked a)) (hc : stepCore s e = some s1) : ∀ g p, untainted s1 g → joinerPark (s1.pc p) g = true → finX (s1.pc g) = true → delivering (s1.pc g) p = true := by
   sorry
 
+set_option maxHeartbeats 4000000 in
 theorem inv2_iv (iv : ∀ g, untainted s g → parkF (s.pc g) = true → s.det g ≠ WFJ → (s.taker g ≠ none ∧ ∀ b, s.taker g = some b → takePh (s.pc b) g = true)) (hw : ∀ a op g v p, s.pc a = .wake op g v p → s.holder p = some a ∧ parkedIn (s.pc p) p g = true) (uq : ∀ g a a', untainted s g → claimPath (s.pc a) g = true → claimPath (s.pc a') g = true → a = a') (wfj : ∀ g, s.det g = WFJ → finX (s.pc g) = true) (c1 : ∀ g b, untainted s g → takePh (s.pc b) g = true → parkF (s.pc g) = true) (hc : stepCore s e = some s1) : ∀ g, untainted s1 g → parkF (s1.pc g) = true → s1.det g ≠ WFJ → (s1.taker g ≠ none ∧ ∀ b, s1.taker g = some b → takePh (s1.pc b) g = true) := by
-  sorry
+  step_cases e with hc
+  all_goals (intros; (try simp only [upd_apply, WFJ, DET, NONE, WTJ, untainted] at *); first | grind | grind (splits := 25) | grind (splits := 80) | ((repeat' split) <;> grind (splits := 80)) | skip)
 
 theorem inv2_t4 (t4 : ∀ g, untainted s g → s.detX g = true → s.det g = DET) (hc : stepCore s e = some s1) : ∀ g, untainted s1 g → s1.detX g = true → s1.det g = DET := by
   sorry
 
-set_option maxHeartbeats 4000000 in
 theorem inv2_dx1 (dx1 : ∀ g, untainted s g → s.detX g = true → s.succ g = []) (dx2 : ∀ g a, untainted s g → s.detX g = true → claimPath (s.pc a) g = true → detTake (s.pc a) g = true) (scn : ∀ g, s.succ g ≠ [] → s.det g ≠ NONE) (k4 : ∀ g, untainted s g → s.succ g ≠ [] → (s.det g ≠ WFJ ∨ s.finTook g = true)) (t4 : ∀ g, untainted s g → s.detX g = true → s.det g = DET) (detx : ∀ g, s.det g = DET → s.detX g = true) (dr : ∀ g, s.det g ≤ 3) (hc : stepCore s e = some s1) : ∀ g, untainted s1 g → s1.detX g = true → s1.succ g = [] := by
-  step_cases e with hc
-  all_goals (intros; (try simp only [upd_apply, WFJ, DET, NONE, WTJ, untainted] at *); first | grind | ((repeat' split) <;> grind) | skip)
+  sorry
 
-set_option maxHeartbeats 4000000 in
 theorem inv2_dx2 (dx2 : ∀ g a, untainted s g → s.detX g = true → claimPath (s.pc a) g = true → detTake (s.pc a) g = true) (cpn : ∀ a g, claimPath (s.pc a) g = true → s.det g ≠ NONE) (k3 : ∀ g a, untainted s g → claimPath (s.pc a) g = true → (s.det g ≠ WFJ ∨ s.finTook g = true)) (t4 : ∀ g, untainted s g → s.detX g = true → s.det g = DET) (detx : ∀ g, s.det g = DET → s.detX g = true) (dr : ∀ g, s.det g ≤ 3) (hc : stepCore s e = some s1) : ∀ g a, untainted s1 g → s1.detX g = true → claimPath (s1.pc a) g = true → detTake (s1.pc a) g = true := by
-  step_cases e with hc
-  all_goals (intros; (try simp only [upd_apply, WFJ, DET, NONE, WTJ, untainted] at *); first | grind | ((repeat' split) <;> grind) | skip)
+  sorry
+
+theorem inv0_core (h0 : Inv0 s) (hc : stepCore s e = some s1) : Inv0 s1 :=
+  ⟨inv0_dr h0 hc, inv0_wfj h0 hc, inv0_detx h0 hc, inv0_fret h0 hc, inv0_tl h0 hc, inv0_cpn h0 hc, inv0_scn h0 hc, inv0_fxn h0 hc, inv0_dst h0 hc, inv0_fj h0 hc, inv0_ff h0 hc, inv0_tcl h0 hc, inv0_fc h0 hc⟩
+
+theorem inv1_core (h0 : Inv0 s) (h1 : Inv1 s) (hc : stepCore s e = some s1) : Inv1 s1 :=
+  ⟨inv1_mb h1.mb h1.hh h1.hw h1.hf hc, inv1_hw h1.hw h1.mb h1.hf h1.hh hc, inv1_hf h1.hf h1.mb h1.hw h1.hh hc, inv1_hh h1.hh h1.hw h1.hf h1.mb hc, inv1_st h1.st h0.fret h1.hf hc, inv1_t0 h1.t0 h0.wfj hc, inv1_tv h1.tv h1.st h1.t0 hc, inv1_wv h1.wv h1.tv hc, inv1_gr h1.gr h1.st hc, inv1_gv h1.gv h1.gr h1.hf hc, inv1_dj h1.dj h0.detx h0.wfj h0.tcl h0.fc h1.hw h0.dr hc⟩
 
 theorem inv2_core (h0 : Inv0 s) (h1 : Inv1 s) (h2 : Inv2 s) (hc : stepCore s e = some s1) : Inv2 s1 :=
   ⟨inv2_k3 h2.k3 h0.cpn h0.dr h0.wfj hc, inv2_k4 h2.k4 h2.k3 h0.scn h0.dr h0.wfj hc, inv2_k5 h2.k5 h0.cpn hc, inv2_uq h2.uq h0.cpn h2.k3 hc, inv2_sq h2.sq h2.uq h0.scn h2.k4 hc, inv2_sl h2.sl h2.sq hc, inv2_cv1 h2.cv1 h1.gv h1.hf h1.hw h2.uq hc, inv2_cv2 h2.cv2 h2.cv1 hc, inv2_cv3 h2.cv3 h2.cv2 h1.wv hc, inv2_sv h2.sv h2.cv3 hc, inv2_c1 h2.c1 h2.c4 h2.uq h1.hw hc, inv2_c4 h2.c4 h2.k3 h1.hw h0.wfj h0.dr hc, inv2_c9 h2.c9 h0.fj h0.tl h0.wfj h2.uq h1.hw h1.hf h0.cpn h0.dr hc, inv2_ii h2.ii h2.c9 h2.uq h1.hw h1.hf hc, inv2_iii h2.iii h2.k5 h0.cpn h0.fxn h0.wfj h1.mb h2.uq h1.hf hc, inv2_iv h2.iv h1.hw h2.uq h0.wfj h2.c1 hc, inv2_t4 h2.t4 hc, inv2_dx1 h2.dx1 h2.dx2 h0.scn h2.k4 h2.t4 h0.detx h0.dr hc, inv2_dx2 h2.dx2 h0.cpn h2.k3 h2.t4 h0.detx h0.dr hc⟩
